@@ -258,6 +258,8 @@ def build_level(spec, problem, share_key=None):
         kw = {}
         if spec.get("set_stds"):
             kw["set_stds"] = True
+        if spec.get("sigma0") is None and spec.get("sigma0_omitted"):
+            return CMALevelConfig(problem=problem, lsc=lsc, generations=int(spec["generations"]), **kw)
         return CMALevelConfig(problem=problem, lsc=lsc, generations=int(spec["generations"]),
                               sigma0=spec.get("sigma0"), **kw)
     if e == "local":
